@@ -14,7 +14,8 @@ EXTENDS Naturals, Sequences, FiniteSets, TLC, Json
 CONSTANTS MaxCalls, MaxAddrs, MaxEvents, MaxSockets, MaxWorkers,
           TokenPerCall,       \* NEG (design FALSE): `bind` allocates ONE token and one factory per call (not per socket)
           TokenForFailed,     \* NEG (design FALSE): a token is consumed for every RESOLVED address, also those whose bind failed
-          UdsKeepsToken       \* NEG (design FALSE): listen_uds reads the counter without advancing it
+          UdsKeepsToken,      \* NEG (design FALSE): listen_uds reads the counter without advancing it
+          ServeWhilePending   \* NEG (design FALSE): a worker calls the ready services although another one is pending
 
 VARIABLES phase,      \* "build" | "failed" (a bind call returned Err) | "running" | "panicked"
           calls,      \* the builder calls so far: [kind, addrs (Seq of BOOLEAN: TRUE = the address can be bound)]
@@ -25,13 +26,15 @@ VARIABLES phase,      \* "build" | "failed" (a bind call returned Err) | "runnin
           svc,        \* a worker's services vector: Seq of [call, fidx] (the same in every worker)
           made,       \* call -> service instances built by that call's factory so far (all workers)
           failNext,   \* call whose next readiness check fails (0 = none)
+          pend,       \* calls whose services currently answer Pending to the readiness check (application back-pressure)
+          waiting,    \* sockets of the clients that connected while some service was pending (in arrival order)
           dead,       \* 1: a worker has died and the accept thread has not noticed yet (it notices when a send to it fails)
           events,     \* events so far: [k |-> "conn", s, by] | [k |-> "fail", c] | [k |-> "die"]
           done
-vars == <<phase, calls, tok, factories, sockets, nw, svc, made, failNext, dead, events, done>>
+vars == <<phase, calls, tok, factories, sockets, nw, svc, made, failNext, pend, waiting, dead, events, done>>
 
 Init == /\ phase = "build" /\ calls = <<>> /\ tok = 0 /\ factories = <<>> /\ sockets = <<>> /\ nw = 0 /\ svc = <<>>
-        /\ made = [c \in 1..MaxCalls |-> 0] /\ failNext = 0 /\ dead = 0 /\ events = <<>> /\ done = FALSE
+        /\ made = [c \in 1..MaxCalls |-> 0] /\ failNext = 0 /\ pend = {} /\ waiting = <<>> /\ dead = 0 /\ events = <<>> /\ done = FALSE
 
 AddrLists == UNION {[1..n -> BOOLEAN] : n \in 1..MaxAddrs}
 Oks(a) == {j \in 1..Len(a) : a[j]}
@@ -58,7 +61,7 @@ Bind(a) ==
                /\ tok' = (IF TokenPerCall THEN tok + 1
                           ELSE IF TokenForFailed THEN tok + Len(a) ELSE tok + Cardinality(Oks(a)))
                /\ UNCHANGED <<phase, done>>
-  /\ UNCHANGED <<nw, svc, made, failNext, dead, events>>
+  /\ UNCHANGED <<nw, svc, made, failNext, pend, waiting, dead, events>>
 
 Listen(kind) ==
   /\ phase = "build" /\ Len(calls) < MaxCalls /\ Len(sockets) < MaxSockets
@@ -67,7 +70,7 @@ Listen(kind) ==
        /\ calls' = Append(calls, [kind |-> kind, addrs |-> <<TRUE>>])
        /\ sockets' = Append(sockets, r) /\ factories' = Append(factories, r)
        /\ tok' = (IF kind = "uds" /\ UdsKeepsToken THEN tok ELSE tok + 1)
-  /\ UNCHANGED <<phase, nw, svc, made, failNext, dead, events, done>>
+  /\ UNCHANGED <<phase, nw, svc, made, failNext, pend, waiting, dead, events, done>>
 
 \* ServerWorker::start -> wrap_worker_services: the factories are created in order; `assert_eq!(token, services.len())`
 Dense == \A i \in 1..Len(factories) : factories[i].tok = i - 1
@@ -77,7 +80,7 @@ Run(w) ==
   /\ phase = "build" /\ sockets # <<>> /\ nw' = w
   /\ IF Dense THEN phase' = "running" /\ svc' = Build /\ made' = MadeBy(made, w) /\ done' = done
               ELSE phase' = "panicked" /\ done' = TRUE /\ UNCHANGED <<svc, made>>
-  /\ UNCHANGED <<calls, tok, factories, sockets, failNext, dead, events>>
+  /\ UNCHANGED <<calls, tok, factories, sockets, failNext, pend, waiting, dead, events>>
 
 \* a pending readiness failure is consumed by the first readiness pass (= before the next connection is served): the
 \* failed service, and only it, is rebuilt from factories[its factory_idx]
@@ -95,44 +98,74 @@ MadeAfterFail == IF failNext = 0 \/ ~\E i \in 1..Len(svc) : svc[i].call = failNe
 \* is re-routed to a live worker - or dropped when none is left (C08).  With two workers the rotation decides whether a
 \* dispatch meets the dead one, so `disc` is free; with a single worker it is forced.
 Lost(disc) == disc /\ nw = 1
+\* a worker calls a service only when EVERY service of the worker is ready: while some call's services are pending a
+\* dispatched connection waits in the worker's queue (C07)
+Waits == pend # {}
 ModelBy(p, disc) == LET t == sockets[p].tok IN
-                      IF t + 1 > Len(sockets) \/ t + 1 > Len(svc) \/ t + 1 # p \/ Lost(disc) THEN 0 ELSE AfterFail(svc)[t + 1].call
+                      IF t + 1 > Len(sockets) \/ t + 1 > Len(svc) \/ t + 1 # p \/ Lost(disc) \/ (Waits /\ ~ServeWhilePending) THEN 0
+                      ELSE AfterFail(svc)[t + 1].call
 ConnObs(p, by, disc) ==
   /\ phase = "running" /\ ~done /\ Len(events) < MaxEvents /\ p \in 1..Len(sockets)
   /\ (disc => dead = 1) /\ (dead = 1 /\ nw = 1 => disc)
-  /\ events' = Append(events, [k |-> "conn", s |-> p, by |-> by, lost |-> Lost(disc)])
+  /\ events' = Append(events, [k |-> "conn", s |-> p, by |-> by, lost |-> Lost(disc), wait |-> Waits /\ ~Lost(disc)])
   /\ LET t == sockets[p].tok IN
        IF t + 1 > Len(sockets) \/ t + 1 > Len(svc)
          THEN /\ phase' = "panicked" /\ done' = TRUE            \* index out of bounds in the accept thread / worker
-              /\ UNCHANGED <<svc, made, failNext, dead>>
+              /\ UNCHANGED <<svc, made, failNext, dead, waiting>>
        ELSE IF t + 1 # p
-         THEN UNCHANGED <<phase, svc, made, failNext, dead, done>>     \* accept() on another socket: WouldBlock; the client is stranded
+         THEN UNCHANGED <<phase, svc, made, failNext, dead, done, waiting>>     \* accept() on another socket: WouldBlock; the client is stranded
+       ELSE IF Waits
+         THEN /\ waiting' = (IF Lost(disc) THEN waiting ELSE Append(waiting, p))
+              /\ made' = (IF disc THEN MadeBy(made, 1) ELSE made)
+              /\ dead' = (IF disc THEN 0 ELSE dead)
+              /\ UNCHANGED <<phase, svc, failNext, done>>
        ELSE /\ svc' = AfterFail(svc) /\ failNext' = 0
             /\ made' = (IF disc THEN MadeBy(MadeAfterFail, 1) ELSE MadeAfterFail)
             /\ dead' = (IF disc THEN 0 ELSE dead)
-            /\ UNCHANGED <<phase, done>>
-  /\ UNCHANGED <<calls, tok, factories, sockets, nw>>
+            /\ UNCHANGED <<phase, done, waiting>>
+  /\ UNCHANGED <<calls, tok, factories, sockets, nw, pend>>
 Conn(p) == \E disc \in BOOLEAN : ConnObs(p, ModelBy(p, disc), disc)
 
 FailReady(c) ==
-  /\ phase = "running" /\ ~done /\ Len(events) < MaxEvents - 1 /\ failNext = 0 /\ dead = 0 /\ c \in 1..Len(calls)
+  /\ phase = "running" /\ ~done /\ Len(events) < MaxEvents - 1 /\ failNext = 0 /\ dead = 0 /\ pend = {} /\ c \in 1..Len(calls)
   /\ \E i \in 1..Len(svc) : svc[i].call = c
   /\ failNext' = c /\ events' = Append(events, [k |-> "fail", c |-> c])
-  /\ UNCHANGED <<phase, calls, tok, factories, sockets, nw, svc, made, dead, done>>
+  /\ UNCHANGED <<phase, calls, tok, factories, sockets, nw, svc, made, pend, waiting, dead, done>>
 
 \* a worker dies (a service call panics).  Nothing else happens until a dispatch finds out (ConnObs with disc):
 \* handle_cmd(WorkerFaulted) then builds a new worker from clone_factory() of every factory
 Die ==
-  /\ phase = "running" /\ ~done /\ Len(events) < MaxEvents - 1 /\ failNext = 0 /\ dead = 0
+  /\ phase = "running" /\ ~done /\ Len(events) < MaxEvents - 1 /\ failNext = 0 /\ dead = 0 /\ pend = {}
   /\ ~\E k \in 1..Len(events) : events[k].k = "die"
   /\ dead' = 1 /\ events' = Append(events, [k |-> "die"])
-  /\ UNCHANGED <<phase, calls, tok, factories, sockets, nw, svc, made, failNext, done>>
+  /\ UNCHANGED <<phase, calls, tok, factories, sockets, nw, svc, made, failNext, pend, waiting, done>>
 
-Finish == /\ phase = "running" /\ ~done /\ failNext = 0 /\ events # <<>> /\ done' = TRUE
-          /\ UNCHANGED <<phase, calls, tok, factories, sockets, nw, svc, made, failNext, dead, events>>
+\* the services of call c start / stop answering Pending.  When the last pending call becomes ready again the workers
+\* serve what has been waiting, in arrival order, each by its own listener's service
+Pend(c) ==
+  /\ phase = "running" /\ ~done /\ Len(events) < MaxEvents - 2 /\ failNext = 0 /\ dead = 0 /\ c \in 1..Len(calls) \ pend
+  /\ \E i \in 1..Len(svc) : svc[i].call = c
+  /\ pend' = pend \cup {c} /\ events' = Append(events, [k |-> "pend", c |-> c])
+  /\ UNCHANGED <<phase, calls, tok, factories, sockets, nw, svc, made, failNext, waiting, dead, done>>
+ModelLate == [k \in 1..Len(waiting) |-> svc[sockets[waiting[k]].tok + 1].call]
+\* `bys`: what the waiting clients are answered with (the model's value is ModelLate)
+UnpendObs(c, bys) ==
+  /\ phase = "running" /\ ~done /\ c \in pend
+  /\ pend' = pend \ {c}
+  /\ IF pend' = {}
+       THEN /\ Len(bys) = Len(waiting)
+            /\ events' = Append(events, [k |-> "unpend", c |-> c]) \o
+                           [k \in 1..Len(waiting) |-> [k |-> "late", s |-> waiting[k], by |-> bys[k]]]
+            /\ waiting' = <<>>
+       ELSE /\ events' = Append(events, [k |-> "unpend", c |-> c]) /\ UNCHANGED waiting
+  /\ UNCHANGED <<phase, calls, tok, factories, sockets, nw, svc, made, failNext, dead, done>>
+Unpend(c) == UnpendObs(c, ModelLate)
+
+Finish == /\ phase = "running" /\ ~done /\ failNext = 0 /\ pend = {} /\ events # <<>> /\ done' = TRUE
+          /\ UNCHANGED <<phase, calls, tok, factories, sockets, nw, svc, made, failNext, pend, waiting, dead, events>>
 
 Next == (\E a \in AddrLists : Bind(a)) \/ Listen("listen") \/ Listen("uds") \/ (\E w \in 1..MaxWorkers : Run(w))
-        \/ (\E p \in 1..MaxSockets : Conn(p)) \/ (\E c \in 1..MaxCalls : FailReady(c)) \/ Die \/ Finish
+        \/ (\E p \in 1..MaxSockets : Conn(p)) \/ (\E c \in 1..MaxCalls : FailReady(c) \/ Pend(c) \/ Unpend(c)) \/ Die \/ Finish
 Spec == Init /\ [][Next]_vars
 
 (* ---- properties ---- *)
@@ -145,8 +178,15 @@ B_TokensArePositions ==
 \* C01: every client is served, by a service built by the factory given in the SAME builder call as its socket
 \* (C08: except the one whose dispatch finds the only worker dead - it is dropped)
 C01_OwnListenersService ==
-  \A k \in 1..Len(events) : events[k].k = "conn" =>
+  \A k \in 1..Len(events) : (events[k].k = "conn" /\ ~events[k].wait) =>
        events[k].by = (IF events[k].lost THEN 0 ELSE sockets[events[k].s].call)
+\* C07: while a service of the worker is pending nothing is called: a client that connects then gets no answer yet
+C07_NoCallWhilePending ==
+  \A k \in 1..Len(events) : (events[k].k = "conn" /\ events[k].wait) => events[k].by = 0
+\* C07: nothing is called while a service of the worker is pending, and what waited is served - by its own listener's
+\* service - once every service is ready again
+C07_WaitsThenServed ==
+  \A k \in 1..Len(events) : events[k].k = "late" => events[k].by = sockets[events[k].s].call
 \* the worker starts and nothing panics
 B_NoPanic == phase # "panicked"
 \* C07 / C08: a failed service is rebuilt from its own factory (the tag survives) and only it (one more instance)
